@@ -56,6 +56,7 @@ pub fn detect_case(i: u64, seed: u64) -> Scenario {
     // checksum reports are sent once and never retransmitted, so the timing claim is made for loss-free links
     sc.link = LinkProfile { loss: 0, dup: [0u8, 0, 20][((r >> 20) % 3) as usize], lat_min: lat, lat_max: lat + [0u16, 20][((r >> 24) % 2) as usize] };
     sc.sched = ((r >> 28) % 2) as u8;
+    sc.own_snapshots = (r >> 32) % 3 == 0;
     sc.ops.push(Op::Corrupt { peer: who, frame: f - 1 });
     sc.ticks = (f as u32 + 6 * interval as u32 + 120) * 5 / 4 + 60;
     sc.settle = 60;
